@@ -83,6 +83,7 @@ func (s HState) key(ordered bool) string {
 type HCase struct {
 	Sub     string   `json:"sub"`
 	Kind    string   `json:"kind"`
+	List    string   `json:"list"`
 	Path    []*HEdge `json:"path"`
 	Pkg     string   `json:"pkg"`
 	Variant string   `json:"variant"`
@@ -616,7 +617,7 @@ func (r *hRunner) violate(conjunct, detail string, path []*HEdge) {
 		ops = append(ops, fmt.Sprintf("%s(%s%s%s)", p.Act.Op, p.Act.Via, p.Act.K, p.Act.N))
 	}
 	r.res.Violate(r.prop, r.sig(conjunct, e), fmt.Sprintf("[%s/%s %s] %s: %s", r.pkg.Name, r.x.V.Name, r.list, strings.Join(ops, " ; "), detail),
-		&HCase{Sub: "helpers", Kind: r.kind, Path: path, Pkg: r.pkg.Name, Variant: r.x.V.Name, Seed: r.x.Seed})
+		&HCase{Sub: "helpers", Kind: r.kind, List: r.list, Path: path, Pkg: r.pkg.Name, Variant: r.x.V.Name, Seed: r.x.Seed})
 }
 
 // runPath replays path from a fresh struct, checking only the last step (all = every step).
@@ -744,6 +745,7 @@ func helpersCmd(args []string) *rep.Result {
 	walks := fs.Int("walks", 0, "additional random walks per (package, variant)")
 	walklen := fs.Int("walklen", 25, "length of random walks")
 	record := fs.String("record", "", "write traces of a model-independent random driver as ndjson for TLC trace validation")
+	lists := fs.String("lists", "", "comma separated corpus lists to run (default: by kind and key arity)")
 	traces := fs.Int("traces", 0, "number of recorded traces per (package, variant)")
 	fs.Parse(args)
 	res := rep.New()
@@ -764,7 +766,7 @@ func helpersCmd(args []string) *rep.Result {
 			res.InfraErr("case: %v", err)
 			return res
 		}
-		r := newHRunner(hc.Kind, hc.Path[0], reg.Get(hc.Pkg), &conc.Ctx{C: cp, V: cp.Variants[hc.Variant], Seed: hc.Seed}, c.prop, res)
+		r := newHRunner(hc.Kind, hc.List, hc.Path[0], reg.Get(hc.Pkg), &conc.Ctx{C: cp, V: cp.Variants[hc.Variant], Seed: hc.Seed}, c.prop, res)
 		r.initAtoms(atomsOf(hc.Path))
 		r.runPath(hc.Path, true)
 		return res
@@ -785,8 +787,9 @@ func helpersCmd(args []string) *rep.Result {
 	}
 	res.Distinct = len(edges)
 	type job struct {
-		pkg *reg.Pkg
-		v   string
+		pkg  *reg.Pkg
+		v    string
+		list string
 	}
 	var recMu sync.Mutex
 	var recF *os.File
@@ -806,7 +809,7 @@ func helpersCmd(args []string) *rep.Result {
 			defer wg.Done()
 			for j := range jobs {
 				x := &conc.Ctx{C: cp, V: cp.Variants[j.v], Seed: c.seed}
-				r := newHRunner(*kind, edges[0], j.pkg, x, c.prop, res)
+				r := newHRunner(*kind, j.list, edges[0], j.pkg, x, c.prop, res)
 				r.rt = true
 				r.initAtoms(atomsOf(edges))
 				ordered := r.ordered
@@ -848,8 +851,10 @@ func helpersCmd(args []string) *rep.Result {
 			if c.limit > 0 && (vi+int(c.seed))%c.limit != 0 {
 				continue
 			}
-			jobs <- job{pkg, v}
-			n++
+			for _, l := range strings.Split(*lists, ",") {
+				jobs <- job{pkg, v, l}
+				n++
+			}
 		}
 	}
 	close(jobs)
@@ -884,7 +889,7 @@ func atomsOf(edges []*HEdge) (keys, pays []string) {
 	return
 }
 
-func newHRunner(kind string, sample *HEdge, pkg *reg.Pkg, x *conc.Ctx, prop string, res *rep.Result) *hRunner {
+func newHRunner(kind, list string, sample *HEdge, pkg *reg.Pkg, x *conc.Ctx, prop string, res *rep.Result) *hRunner {
 	r := &hRunner{kind: kind, pkg: pkg, x: x, res: res, prop: prop, visited: map[string]bool{}}
 	multi := false
 	for _, k := range []string{sample.Act.K, sample.Post.key(true)} {
@@ -901,6 +906,9 @@ func newHRunner(kind string, sample *HEdge, pkg *reg.Pkg, x *conc.Ctx, prop stri
 		r.list = "l"
 	default:
 		r.list = "m"
+	}
+	if list != "" {
+		r.list = list
 	}
 	r.ordered = kind == "omap"
 	r.kn = x.C.Lists[r.list]
